@@ -1,10 +1,15 @@
 #!/bin/sh
-# tools/seedbatch.sh C12 C08 ...  — evaluate every /tmp/seedout/<P>/m*/ that has no result.json yet
+# tools/seedbatch.sh C12 C08 ...  — evaluate every /tmp/seedout/<P>/m*/ that has no result.json yet.
+# Several instances may run side by side: a mutation is claimed with an atomic mkdir.
 for p in "$@"; do
   for m in /tmp/seedout/$p/m*; do
     [ -f "$m/patch.diff" ] || continue
     [ -f "$m/result.json" ] && continue
-    /verif/tools/seedeval.py "$m" > "$m/result.json" 2> "$m/result.err"
-    echo "$m rc=$? $(python3 -c "import json;d=json.load(open('$m/result.json'));print('confirmed',d.get('confirmed'),'caught',d.get('caught'))" 2>/dev/null)"
+    mkdir "$m/.claim" 2>/dev/null || continue
+    /verif/tools/seedeval.py "$m" > "$m/result.json.tmp" 2> "$m/result.err"
+    rc=$?
+    mv "$m/result.json.tmp" "$m/result.json"
+    rmdir "$m/.claim"
+    echo "$m rc=$rc $(python3 -c "import json;d=json.load(open('$m/result.json'));print('confirmed',d.get('confirmed'),'caught',d.get('caught'))" 2>/dev/null)"
   done
 done
